@@ -50,6 +50,7 @@ type File struct {
 
 	readOpReader *ioext.CounterReadCloser
 	readOpWriter io.WriteCloser
+	readPos      int64 // Cursor while the file is being read as a stream; the stream itself is (re-)positioned lazily
 
 	writeBuf      cache.WriteCache
 	cleanWriteBuf func() error
@@ -110,6 +111,12 @@ func (f *File) syncWithoutLocking() error {
 	}
 
 	if f.writeBuf != nil {
+		// Syncing must not move the cursor
+		cursor, err := f.writeBuf.Seek(0, io.SeekCurrent)
+		if err != nil {
+			return err
+		}
+
 		done := false
 		if _, err := f.writeOps.Update(
 			func() (config.FileConfig, error) {
@@ -157,7 +164,8 @@ func (f *File) syncWithoutLocking() error {
 							return nil, err
 						}
 
-						return f.writeBuf, nil
+						// The `update` operation closes its source; the buffer has to stay usable after a sync
+						return readSeekNopCloser{f.writeBuf}, nil
 					},
 					Info: f.info,
 					Path: f.path,
@@ -170,9 +178,34 @@ func (f *File) syncWithoutLocking() error {
 		); err != nil {
 			return err
 		}
+
+		if _, err := f.writeBuf.Seek(cursor, io.SeekStart); err != nil {
+			return err
+		}
 	}
 
 	return nil
+}
+
+type readSeekNopCloser struct {
+	io.ReadSeeker
+}
+
+func (readSeekNopCloser) Close() error {
+	return nil
+}
+
+func (f *File) closeReadStream() {
+	if f.readOpReader != nil {
+		_ = f.readOpReader.Close()
+	}
+
+	if f.readOpWriter != nil {
+		_ = f.readOpWriter.Close()
+	}
+
+	f.readOpReader = nil
+	f.readOpWriter = nil
 }
 
 func (f *File) closeWithoutLocking() error {
@@ -193,8 +226,11 @@ func (f *File) closeWithoutLocking() error {
 	}
 
 	if f.writeBuf != nil {
-		// No need to close write buffer, the `update` operation closes it itself
 		if err := f.syncWithoutLocking(); err != nil {
+			return err
+		}
+
+		if err := f.writeBuf.Close(); err != nil {
 			return err
 		}
 
@@ -276,10 +312,9 @@ func (f *File) enterWriteMode() error {
 			}
 		}
 
-		if !f.flags.Append {
-			if _, err := f.writeBuf.Seek(0, io.SeekStart); err != nil {
-				return err
-			}
+		// Continue where the cursor has been while reading; appending writes go to the end when they are made
+		if _, err := f.writeBuf.Seek(f.readPos, io.SeekStart); err != nil {
+			return err
 		}
 	}
 
@@ -307,19 +342,34 @@ func (f *File) seekWithoutLocking(offset int64, whence int) (int64, error) {
 	case io.SeekStart:
 		dst = offset
 	case io.SeekCurrent:
-		curr := 0
-		if f.readOpReader != nil {
-			curr = f.readOpReader.BytesRead
-		}
-		dst = int64(curr) + offset
+		dst = f.readPos + offset
 	case io.SeekEnd:
-		dst = f.info.Size() - offset
+		dst = f.info.Size() + offset
 	default:
 		return -1, config.ErrNotImplemented
 	}
 
-	if f.readOpReader == nil || f.readOpWriter == nil || dst < int64(f.readOpReader.BytesRead) { // We have to re-open as we can't seek backwards
-		_ = f.closeWithoutLocking() // Ignore errors here as it might not be opened
+	if dst < 0 {
+		return -1, os.ErrInvalid
+	}
+
+	// The stream is positioned by the next read; seeking beyond the end is allowed
+	f.readPos = dst
+
+	return dst, nil
+}
+
+func (f *File) readWithoutLocking(p []byte) (n int, err error) {
+	if f.writeBuf != nil {
+		return f.writeBuf.Read(p)
+	}
+
+	if f.readPos >= f.info.Size() {
+		return 0, io.EOF
+	}
+
+	if f.readOpReader == nil || f.readOpWriter == nil || int64(f.readOpReader.BytesRead) > f.readPos { // We have to re-open as we can't seek backwards
+		f.closeReadStream()
 
 		r, writer := io.Pipe()
 		reader := &ioext.CounterReadCloser{
@@ -359,26 +409,30 @@ func (f *File) seekWithoutLocking(offset int64, whence int) (int64, error) {
 		f.readOpWriter = writer
 	}
 
-	written, err := io.CopyN(io.Discard, f.readOpReader, dst-int64(f.readOpReader.BytesRead))
-	if err == io.EOF {
-		// Noop
-		switch whence {
-		case io.SeekStart:
-			return offset, nil
-		case io.SeekCurrent:
-			return int64(f.readOpReader.BytesRead) + offset, nil
-		case io.SeekEnd:
-			return int64(f.info.Size()) - offset, nil
-		default:
-			return -1, config.ErrNotImplemented
+	// Skip forward to the cursor
+	if skip := f.readPos - int64(f.readOpReader.BytesRead); skip > 0 {
+		if _, err := io.CopyN(io.Discard, f.readOpReader, skip); err != nil {
+			if err == io.EOF {
+				return 0, io.EOF
+			}
+
+			return -1, err
 		}
+	}
+
+	w := &bytes.Buffer{}
+	_, err = io.CopyN(w, f.readOpReader, int64(len(p)))
+	n = copy(p, w.Bytes())
+	f.readPos += int64(n)
+	if err == io.EOF {
+		return n, io.EOF
 	}
 
 	if err != nil {
 		return -1, err
 	}
 
-	return written, nil
+	return n, nil
 }
 
 // Inventory
@@ -510,60 +564,7 @@ func (f *File) Read(p []byte) (n int, err error) {
 	f.ioLock.Lock()
 	defer f.ioLock.Unlock()
 
-	if f.writeBuf != nil {
-		return f.writeBuf.Read(p)
-	}
-
-	if f.readOpReader == nil || f.readOpWriter == nil {
-		r, writer := io.Pipe()
-		reader := &ioext.CounterReadCloser{
-			Reader:    r,
-			BytesRead: 0,
-		}
-
-		go func() {
-			if err := f.readOps.Restore(
-				func(path string, mode fs.FileMode) (io.WriteCloser, error) {
-					return writer, nil
-				},
-				func(path string, mode fs.FileMode) error {
-					// Not necessary; can't read on a directory
-					return nil
-				},
-
-				f.path,
-				"",
-				true,
-			); err != nil {
-				if err == io.ErrClosedPipe {
-					return
-				}
-
-				// Hand the error to whoever reads from the pipe
-				_ = writer.CloseWithError(err)
-
-				return
-			}
-
-			// Never leave the reader waiting for a stream that has ended without being closed (i.e. if the position holds no regular file)
-			_ = writer.Close()
-		}()
-
-		f.readOpReader = reader
-		f.readOpWriter = writer
-	}
-
-	w := &bytes.Buffer{}
-	_, err = io.CopyN(w, f.readOpReader, int64(len(p)))
-	if err == io.EOF {
-		return copy(p, w.Bytes()), io.EOF
-	}
-
-	if err != nil {
-		return -1, err
-	}
-
-	return copy(p, w.Bytes()), nil
+	return f.readWithoutLocking(p)
 }
 
 func (f *File) ReadAt(p []byte, off int64) (n int, err error) {
@@ -585,11 +586,34 @@ func (f *File) ReadAt(p []byte, off int64) (n int, err error) {
 		return -1, config.ErrIsDirectory
 	}
 
-	if _, err := f.Seek(off, io.SeekStart); err != nil {
+	if off < 0 {
+		return -1, os.ErrInvalid
+	}
+
+	f.ioLock.Lock()
+	defer f.ioLock.Unlock()
+
+	// A positioned read does not move the cursor
+	cursor, err := f.seekWithoutLocking(0, io.SeekCurrent)
+	if err != nil {
 		return -1, err
 	}
 
-	return f.Read(p)
+	if _, err := f.seekWithoutLocking(off, io.SeekStart); err != nil {
+		return -1, err
+	}
+
+	n, err = f.readWithoutLocking(p)
+
+	if _, err := f.seekWithoutLocking(cursor, io.SeekStart); err != nil {
+		return -1, err
+	}
+
+	if err == nil && n < len(p) {
+		err = io.EOF
+	}
+
+	return n, err
 }
 
 // Read/write operations
@@ -628,6 +652,12 @@ func (f *File) Write(p []byte) (n int, err error) {
 		return -1, err
 	}
 
+	if f.flags.Append {
+		if _, err := f.writeBuf.Seek(0, io.SeekEnd); err != nil {
+			return -1, err
+		}
+	}
+
 	n, err = f.writeBuf.Write(p)
 	if err != nil {
 		return -1, err
@@ -654,15 +684,31 @@ func (f *File) WriteAt(p []byte, off int64) (n int, err error) {
 	f.ioLock.Lock()
 	defer f.ioLock.Unlock()
 
+	if off < 0 {
+		return -1, os.ErrInvalid
+	}
+
 	if err := f.enterWriteMode(); err != nil {
 		return -1, err
 	}
 
-	if _, err := f.seekWithoutLocking(off, io.SeekStart); err != nil {
+	// A positioned write does not move the cursor
+	cursor, err := f.writeBuf.Seek(0, io.SeekCurrent)
+	if err != nil {
 		return -1, err
 	}
 
-	return f.writeBuf.Write(p)
+	if _, err := f.writeBuf.Seek(off, io.SeekStart); err != nil {
+		return -1, err
+	}
+
+	n, err = f.writeBuf.Write(p)
+
+	if _, err := f.writeBuf.Seek(cursor, io.SeekStart); err != nil {
+		return -1, err
+	}
+
+	return n, err
 }
 
 func (f *File) WriteString(s string) (ret int, err error) {
@@ -686,6 +732,12 @@ func (f *File) WriteString(s string) (ret int, err error) {
 		return -1, err
 	}
 
+	if f.flags.Append {
+		if _, err := f.writeBuf.Seek(0, io.SeekEnd); err != nil {
+			return -1, err
+		}
+	}
+
 	return f.writeBuf.Write([]byte(s))
 }
 
@@ -703,6 +755,10 @@ func (f *File) Truncate(size int64) error {
 		return os.ErrPermission
 	}
 
+	if size < 0 {
+		return os.ErrInvalid
+	}
+
 	f.ioLock.Lock()
 	defer f.ioLock.Unlock()
 
@@ -710,25 +766,7 @@ func (f *File) Truncate(size int64) error {
 		return err
 	}
 
-	oldSize, err := f.writeBuf.Size()
-	if err != nil {
-		return err
-	}
-
-	if size > oldSize {
-		if err := f.writeBuf.Truncate(0); err != nil {
-			return err
-		}
-
-		for i := int64(0); i < size; i++ {
-			if _, err := f.writeBuf.Write(make([]byte, 1)); err != nil {
-				return err
-			}
-		}
-
-		return nil
-	}
-
+	// Growing keeps the existing content and fills up with zeros; the cursor stays where it is
 	if err := f.writeBuf.Truncate(size); err != nil {
 		return err
 	}
